@@ -256,6 +256,13 @@ fn lsp_eval(s: &lsp::Session, h: &lsp::History) -> LspEval {
             ] {
                 counters.insert(k.to_string(), v);
             }
+            for p in &s.ops {
+                for t in &p.tags {
+                    if t.starts_with("request.") || t.starts_with("cancelRequest.") || t.starts_with("notification.") || t.starts_with("didChange.") || t.starts_with("didOpen.") || t.starts_with("didClose.") || t.starts_with("disk.") {
+                        *counters.entry(format!("sent.{t}")).or_insert(0) += 1;
+                    }
+                }
+            }
             LspEval { violation, nontrivial: st.nontrivial, kind_key: st.kind_key, counters }
         }
         "C16" => {
